@@ -90,7 +90,7 @@ class HeadersEaeter:
         return pos
 
     def _eat_last_hyphen(self, chunk: bytes, base: int) -> Optional[int]:
-        chunk_start = chunk[base: base + 2]
+        chunk_start = chunk[base: base + 1]
         if not chunk_start:
             return
         if chunk_start == HYPHEN:
